@@ -1117,7 +1117,8 @@ class RewritingContext:
         ), make_modify_cache(self._module, self._functions) as modify_cache:
             functions_by_uuid = {func.uuid: func for func in self._functions}
             sorted_blocks = sorted(
-                self._module.byte_blocks, key=lambda b: b.address or 0
+                self._module.byte_blocks,
+                key=lambda b: (b.address or 0, b.size != 0),
             )
 
             for func in self._function_insertions:
